@@ -271,7 +271,18 @@ func (p *Packer) packWalkFn(root, src, dst string, tarW *tar.Writer, meta *Meta,
 
 			// Check if the symlink's target falls within the root.
 			if ok, err := p.validSymlink(root, path, target); ok {
-				// We can simply copy the link.
+				// We can simply copy the link. Inside a dereferenced directory
+				// the entry sits elsewhere than the link does on disk, so a
+				// relative target into the root is re-expressed from the
+				// entry's own position to keep naming the same path.
+				if src != dst && !filepath.IsAbs(target) {
+					absTarget := filepath.Join(filepath.Dir(path), target)
+					if inRoot, err := filepath.Rel(root, absTarget); err == nil && inRoot != ".." && !strings.HasPrefix(inRoot, ".."+string(filepath.Separator)) {
+						if rel, err := filepath.Rel(filepath.Dir(filepath.Join(root, subpath)), absTarget); err == nil {
+							target = rel
+						}
+					}
+				}
 				header.Typeflag = tar.TypeSymlink
 				header.Linkname = filepath.ToSlash(target)
 				break
